@@ -598,3 +598,41 @@ def c15(ctx):
              "distinct = distinct (graph, selector, control)",
         assumptions=["each control is applied on its own, without a preloader (as the property says)"],
         exhaustive=True)
+
+
+# --------------------------------------------------------------------------- transforms
+def tf_cfg(tmode):
+    return """SPECIFICATION Spec
+CONSTANTS
+  Mode = "plain"
+  SelDepth = 1
+  Shard = 0
+  NShards = 1
+  Sample = 0
+  TMode = "%s"
+INVARIANTS IdentityIsIdentity ReplaceLandsAtTarget RemoveRemoves Emit
+CHECK_DEADLOCK FALSE
+""" % tmode
+
+
+@prop("C16")
+def c16(ctx):
+    for tmode in ("focus", "focus2", "walk"):
+        f = os.path.join(ctx.scratch, "tf-%s.ndjson" % tmode)
+        ctx.tlc("TransformGen", tf_cfg(tmode), capture=f, workers=4, timeout=2400)
+        args = ["transform", "-in", f]
+        ctx.absorb(ctx.vh_run(args, timeout=3000), args, label="transform/" + tmode)
+    return ctx.finish(
+        "model_checking",
+        rule="cases = 9 graphs x every target path (every existing path up to depth 3 incl. through links; new map keys; "
+             "list append '-'; index beyond the bounds; non-numeric segment on a list; below a scalar; missing parents with "
+             "and without createParents) x {identity, replace by a map, replace by a string, remove} for the focused "
+             "transform; sequences of two focused transforms; the walking transform over 12-13 selectors per graph with a "
+             "callback that rewrites integers. Transform.tla gives the expected EXPANDED tree (links carry their block's "
+             "content) or the expected failure; the harness compares the result loaded through the link system, re-reads "
+             "the input tree and every pre-existing block, checks that untouched blocks keep their links and what the "
+             "callback was shown; non-trivial = non-empty path or walking transform; distinct = distinct cases",
+        assumptions=["identity/removal of a position that does not exist, and replacing the root by a value of another kind, "
+                     "are outside the quantifier (values acceptable at the target position)",
+                     "below a link the entry order of maps is the codec's canonical order"],
+        exhaustive=True)
